@@ -16,6 +16,7 @@ Violation keys:  <law>:<region>:<units of a>,<units of b>
   a law suffixed @<config> was observed in a non-default registry configuration (autoconvert, autoconvert-live)
   region in both-zero-offset   (both magnitudes zero and an offset unit involved: F1)
             delta-vs-offset    (an offset unit against a delta_ unit: F85)
+            zero-type           (number-rule only: the verdict against a bare zero depends on the Python type spelling the zero)
             system-<name>       (hash only: under default system <name>, or 'switch:<name>' for a live default_system switch)
             context-<name>      (cross-dim only: ordering across dimensions while context <name> is active)
             dimensionless-base-units (hash only: equal quantities whose root-unit containers differ
@@ -540,6 +541,69 @@ def run_contexts(ck, fails):
                                "b": [mstr(b[0]), {k: str(v) for k, v in b[1].items()}]}))
     ck.count("context-order", n)
 
+
+# ------------------------------------------------------------------ bare zeros of every numeric type (pint alone)
+def bare_zeros():
+    import numpy as np
+    from decimal import Decimal as D
+    return [("int 0", 0), ("float 0.0", 0.0), ("float -0.0", -0.0), ("Fraction(0)", F(0)), ("Decimal(0)", D(0)),
+            ("Decimal('0.00')", D("0.00")), ("Decimal('-0')", D("-0")), ("Decimal('0E+3')", D("0E+3")),
+            ("numpy.int64(0)", np.int64(0)), ("numpy.float64(0.0)", np.float64(0.0)), ("numpy.float32(0)", np.float32(0)),
+            ("numpy.uint8(0)", np.uint8(0)), ("bool False", False), ("complex 0j", 0j)]
+
+
+def six_ops():
+    import operator
+    return [("==", operator.eq), ("!=", operator.ne), ("<", operator.lt), ("<=", operator.le), (">", operator.gt), (">=", operator.ge)]
+
+
+def outcome(fn):
+    """value of a comparison as a plain bool, or the error class — never an exception"""
+    try:
+        r = fn()
+        if type(r).__name__ in ("bool", "bool_"):
+            return bool(r)
+        return "returned " + type(r).__name__
+    except Exception as e:      # noqa: BLE001
+        return xerr(e)
+
+
+def zero_law_one(ureg, nit, x, units_text, zname, z, opname, op, order):
+    """A dimensioned multiplicative quantity against a bare zero: the verdict is that of the magnitudes alone,
+    whatever Python type spells the zero.  Returns None if it holds, else a description."""
+    xm = nit(x)
+    q = ureg.Quantity(xm, units_text)
+    got = outcome((lambda: op(q, z)) if order == 0 else (lambda: op(z, q)))
+    exp = outcome((lambda: op(xm, z)) if order == 0 else (lambda: op(z, xm)))
+    if got == exp:
+        return None
+    lhs, rhs = (f"Q({x}, '{units_text}')", zname) if order == 0 else (zname, f"Q({x}, '{units_text}')")
+    return f"{lhs} {opname} {rhs} gives {got}; the magnitudes alone give {exp} ({nit.__name__} registry)"
+
+
+def run_bare_zeros(ck, fails, thorough):
+    from decimal import Decimal as D
+    import warnings
+    warnings.filterwarnings("ignore", category=RuntimeWarning)
+    n = 0
+    for nit in (float, F, D):
+        ureg = regk.registry(nit)
+        units = ["meter", "1/second", "kilogram*meter/second**2"] + (["inch", "hertz", "mole/liter"] if thorough else [])
+        for units_text in units:
+            for x in (0, 3, -2):
+                for zname, z in bare_zeros():
+                    for opname, op in six_ops():
+                        for order in (0, 1):
+                            n += 1
+                            d = zero_law_one(ureg, nit, x, units_text, zname, z, opname, op, order)
+                            if d is not None:
+                                fails.append((f"number-rule:zero-type:{zname.split('(')[0].split(' ')[0]},{opname}",
+                                              "comparison with a bare zero depends on the Python type of the zero: " + d,
+                                              {"law": "zero-type", "registry": nit.__name__, "x": x, "units": units_text,
+                                               "zero": zname, "op": opname, "order": order}))
+                    ck.case(key=("bare-zero", nit.__name__, units_text, x, zname), n=12)
+    ck.count("bare-zero comparisons", n)
+
 # ------------------------------------------------------------------ the run
 def detect_quirks(w):
     """replay the _refuted witnesses on the implementation to select the model's switches"""
@@ -565,6 +629,9 @@ def run(ck):
         "registry mode autoconvert_offset_to_baseunit=True (constructor and live switch): Quantity-Quantity ==, ordering, hash of "
         "multiplicative and single offset units are compared with the same model (C05_autoconvert_mode_irrelevant); bare-number "
         "branches and compound offset units in that mode are C06's",
+        "bare zeros: int, float +-0.0, Fraction, four Decimal spellings, numpy int64/float64/float32/uint8, bool False, complex 0j, in the "
+        "float, Fraction and Decimal registries, both operand orders, six operators; the expected verdict is Python's own on the bare "
+        "magnitudes (so Fraction-vs-Decimal TypeError is Python's, not pint's)",
         "logarithmic units are outside the model (C06); offset units in compound position only through their error class",
         "the model hashes in root units of the default system only; under the other default systems (cgs, imperial, US, SI, atomic, "
         "Planck, None, and default_system assigned on a live registry before first use) == => equal hash / set / dict lookup is an "
@@ -897,6 +964,22 @@ def run(ck):
                               {"law": "float", "a": [repr(x), a], "b": [repr(y), b]}))
         ck.count("float-order", nfl)
 
+        # ---- (13) bare zeros of every numeric type, three registries, both operand orders, six operators (pint alone);
+        #      and the same zeros through the model (every spelling is [ONum (Fin 0)])
+        stage[0] = '(13) bare zeros of every numeric type'
+        run_bare_zeros(ck, fails, thorough)
+        import numpy as _np
+        for zname, z in [("float 0.0", 0.0), ("float -0.0", -0.0), ("Fraction(0)", F(0)), ("numpy.int64(0)", _np.int64(0)),
+                         ("numpy.float64(0.0)", _np.float64(0.0)), ("bool False", False)]:
+            for ua in ({"meter": F(1)}, {"second": F(-1)}, {"newton": F(1)}, {}, {"percent": F(1)}):
+                for x in (0, 3, F(-3, 2)):
+                    qa = w.q(x, ua)
+                    oeq, one = Obs(lambda: plain_bool(bool(qa == z))), Obs(lambda: plain_bool(bool(qa != z)))
+                    ocmp = Obs(lambda: tuple(bool(t) for t in cmp4(qa, z)))
+                    add(f"KNum {coq_qty(x, ua)} (ONum (Fin {coq_q(0)})) {oeq.coq(coq_bool)} {one.coq(coq_bool)} {ocmp.coq(coq_cmp4)}",
+                        {"number": [mstr(x), ustr(ua), zname]})
+                    ck.case(key=("num-zero-type", ustr(ua), mstr(x), zname))
+
         # ---- (12) registry mode autoconvert_offset_to_baseunit (constructor argument and live switch): between two
         #      quantities ==, ordering and hashing of multiplicative and single offset units do not depend on it
         #      (C05_autoconvert_mode_irrelevant), so the same model and the same laws apply
@@ -1015,6 +1098,14 @@ def replay(ck, path):
         qa, qb = ureg.Quantity(*rp["a"]), ureg.Quantity(*rp["b"])
         if qa == qb and qb == qa and not (hash(qa) == hash(qb) and qb in {qa}):
             fl.append((data.get("key", "hash"), "a == b but hash / set lookup disagree"))
+    elif rp["law"] == "zero-type":
+        from decimal import Decimal as D
+        nit = {"float": float, "Fraction": F, "Decimal": D}[rp["registry"]]
+        z = dict(bare_zeros())[rp["zero"]]
+        op = dict(six_ops())[rp["op"]]
+        d = zero_law_one(regk.registry(nit), nit, rp["x"], rp["units"], rp["zero"], z, rp["op"], op, rp["order"])
+        if d is not None:
+            fl.append((data.get("key", "number-rule"), d))
     else:
         print("(no automatic replay for this law; the operands are listed above)")
         return 0
